@@ -258,11 +258,31 @@ Proof. intros Hbs. unfold compile.
 Qed.
 Print Assumptions C04_headers_balanced.
 
-(* non-vacuity and agreement with computation on the document of FragH.v *)
-Require FragH.
+(* non-vacuity and agreement with computation on a concrete document *)
+Definition ex_src := runes "a & b
+.Ch First <chapter>
+.Bd
+.Bm
+c <d>
+.Sh -nonum A Bm section Em title
+.Bd -id x
+nested
+.Em !
+.P A <title> Bm with Em markup
+new paragraph
+.Sm strong <t> .
+.Ed
+.Ch
+.Tc
+.Tc -summary -title Contents -nonum
+e
+.Bm
+left open
+".
+Definition ex_world := mkWorld [] [(R "m.frundis", ex_src)] [] false [].
 Example headersL_example :
-  Forall in_fragHL (fst (parse FragH.ex_src)) /\
-  (let s := compile_source (R "latex") 0 FragH.ex_world (R "m.frundis") in
+  Forall in_fragHL (fst (parse ex_src)) /\
+  (let s := compile_source (R "latex") 0 ex_world (R "m.frundis") in
    panicked s = None /\ flat (wout s) = runes "a \& b
 
 \chapter{First <chapter>}
